@@ -171,10 +171,10 @@ func verifC22Key(name string) []byte { return verifBytes(name, 1) }
 
 func VerifC22_Overlay() {
 	// quick: 3 operations from {Set, Delete, iterate} over a parent with
-	// 0..1 entries; thorough: 3 operations from all five kinds, parent 0..2
+	// 0..1 entries; thorough: 3 operations from all five kinds, parent 0..1
 	nops, maxParent, kinds := 3, 2, []int{0, 1, 3}
 	if verifThorough() {
-		maxParent, kinds = 3, []int{0, 1, 2, 3, 4}
+		kinds = []int{0, 1, 2, 3, 4}
 	}
 	parent := &verifC22Parent{}
 	model := &verifC22Model{}
